@@ -400,10 +400,15 @@ def compare(case, om, oi):
             which = 0 if f[0].startswith("te=0") else 1
             return "p(t) = %s + %s t evaluates (sb_poly_eval) to exactly %s at t = %d, but sb_poly_touches reports no solution in [0,1]" % (
                 float(cs[0]), float(cs[1]), float(frac_of_bits(int(ys[which], 16))), which)
-        for r in f[2][2:].split(":"):
+        # the parameter returned is (y - b) / a computed in binary32: within the rounding of y - b (an ulp of the larger
+        # of |b|, |y|) divided by |a| of the end it belongs to - a flat slope makes that wide (the thorough tier drew
+        # b = -5.1, a = -1.3e-4: parameter 1.001)
+        cs = [frac_of_bits(int(x, 16)) for x in _vals(w[2])]
+        for end, r in zip((0, 1), f[2][2:].split(":")):
             rv = frac_of_bits(int(r, 16))
-            if rv is None or not (Fraction(-1, 1000) <= rv <= 1 + Fraction(1, 1000)):
-                return "touches at an end value returned the parameter %s" % (None if rv is None else float(rv))
+            tol = Fraction(1, 10 ** 6) + (abs(cs[0]) + abs(cs[1])) / abs(cs[1]) / (1 << 21)
+            if rv is None or abs(rv - end) > tol:
+                return "touches at the value taken at u = %d returned the parameter %s (allowed %s)" % (end, None if rv is None else float(rv), float(tol))
         return None
     if k == "extrema":
         cs = [frac_of_bits(int(x, 16)) for x in _vals(w[2])]
